@@ -250,7 +250,7 @@ def build_traces(path, tier, seed):
 def run(tier, seed):
     rep = Report("C20", tier, seed)
     wd = workdir("C20")
-    maxlen = 5 if tier == "quick" else 7
+    maxlen = 5 if tier == "quick" else 6        # (length 7: a 267 MB lock-step table; TLC did not finish it within the 30 min limit on a busy machine)
     tab = os.path.join(wd, "table.txt")
     with warnings.catch_warnings():
         warnings.simplefilter("ignore")
